@@ -107,7 +107,11 @@ func (x *vsrvC15) look() (v vsrvC15View) {
 		if st.hStarted && !st.hReturned && !st.cliRST && !st.srvRST && !st.srvEnd {
 			v.provablyOpen++
 		}
-		if !st.cliRST && !st.srvRST && !(st.srvEnd && st.cliEnd) {
+		// Streams whose request the script made malformed are left alone afterwards: the
+		// server rejects some of them while decoding the header block, without recording the
+		// stream id, and then treats a later RST_STREAM / WINDOW_UPDATE on that id as a frame
+		// on an idle stream (connection error) — outside what C15 states.
+		if !st.malformed && !st.cliRST && !st.srvRST && !(st.srvEnd && st.cliEnd) {
 			v.live = append(v.live, id)
 			if x.posts[id] && !st.cliEnd {
 				v.openPosts = append(v.openPosts, id)
@@ -340,6 +344,18 @@ func vsrvC15Script(s *vsrvSession, rng *rand.Rand, d *vsrvC15Desc) {
 		id := x.newID()
 		s.setPlan(id, []vsrvOp{{Kind: 'w', N: 10}})
 		s.cliHeaders(id, true, vsrvGetFields("/te", vsrvField{"te", "trailers"}))
+	case "settings-ack-min":
+		// minimal deterministic history for "two SETTINGS while a frame write is in flight"
+		s.setCap(1000)
+		id := x.newID()
+		s.setPlan(id, []vsrvOp{{Kind: 'w', N: 20000}})
+		s.cliHeaders(id, true, vsrvGetFields("/big"))
+		s.settle() // HEADERS written; the 16 KiB DATA frame writer is parked in conn.Write
+		s.cliSettings()
+		s.cliSettings()
+		s.settle()
+		s.setCap(0) // the client reads everything
+		s.settle()
 	case "settings-during-write":
 		// two SETTINGS (and a PING) arrive while a large frame write is stuck in the pipe
 		s.setCap(1 + rng.IntN(8000))
@@ -435,6 +451,9 @@ func vsrvC15Script(s *vsrvSession, rng *rand.Rand, d *vsrvC15Desc) {
 		for _, id := range v.openPosts {
 			s.cliData(id, true, nil)
 		}
+		for _, id := range v.parked {
+			s.releaseAll(id)
+		}
 		s.settle()
 	}
 	s.mu.Lock()
@@ -476,6 +495,9 @@ func vsrvC15Session(r *verifrt.R, c *verifrt.Case, mode string) {
 	if mode != "random" {
 		d.Steps = rng.IntN(30)
 		d.Cap = 0
+	}
+	if mode == "settings-ack-min" {
+		d.Steps, d.InitWin, d.Sched, d.Adv = 0, 65535, "", 8
 	}
 	c.Describe(d)
 	var s *vsrvSession
@@ -527,6 +549,7 @@ func TestVerif_C15(t *testing.T) {
 	r.CasesParallel("session-gotrack", r.N(20, 400), 0, func(c *verifrt.Case) { vsrvC15Session(r, c, "random") })
 	vsrvGoroutineTracking(false)
 	n := r.N(500, 15000)
+	r.Cases("directed-settings-ack-min", 1, func(c *verifrt.Case) { vsrvC15Session(r, c, "settings-ack-min") })
 	for _, m := range []string{"over-limit", "early-reset", "malformed", "settings-during-write"} {
 		m := m
 		r.CasesParallel("directed-"+m, n/10, 0, func(c *verifrt.Case) { vsrvC15Session(r, c, m) })
